@@ -30,18 +30,24 @@ def run(ctx):
               "each case in a child process), with generated gun options, under the real engine against a scripted misbehaving TCP target; "
               "responses announcing sizes they do not have (Content-Length / chunk sizes up to 2^63-1; 2^31 and more in a child process); "
               "targets given by host name that refuse connections while the config is decoded and accept from the start of the run "
-              "(process-wide DNS-caching dialer, 2-16 instances dialling together; child process). non-trivial: "
+              "(process-wide DNS-caching dialer, 2-16 instances dialling together; child process); targets answering with redirects "
+              "(loops, cycles, chains ending in any other behaviour, missing / unparsable / dead Location; gun option redirect on and off; "
+              "all four http-family guns; child process; the target counts the redirects followed per chain and never ends a chain itself). non-trivial: "
               "var/header chains containing substr with a non-empty value; assert cases with at least one condition; xpath "
               "cases whose expression is not a node set; every jsonpath case; engine cases with >1 step or a scenario; "
               "distinct = distinct case lines. Library outcomes (xpath value kind, json/jsonpath success) are inputs of the "
               "model and are taken from the observation; lower/upper/replace with an empty pattern are generated on ASCII only"),
         key_fn=key_fn,
-        translators=[("gofn-mp", "GoFnMpGen.v"), ("lockflow", "LockFlowGen.v"), ("bodysinks", "BodySinksGen.v")],
+        translators=[("gofn-mp", "GoFnMpGen.v"), ("lockflow", "LockFlowGen.v"), ("bodysinks", "BodySinksGen.v"),
+                     ("redirclient", "RedirClientGen.v")],
         # Properties/C19_wire.v: announced-versus-arriving body sizes and the lock-flow theorems (extra obligations);
         # Gen/LockFlow_bridge.v: the check evaluated on the skeletons re-read from lib/netutil/dial.go
         # Gen/BodySinks_bridge.v: every place of the http-family gun packages that consumes a body uses one of the two modelled sinks,
         # and none looks at the announced length
-        bridge_files=["Gen/GoFnMp_bridge.v", "Gen/LockFlow_bridge.v", "Gen/BodySinks_bridge.v", "Properties/C19_wire.v"],
+        # Properties/C19_redirect.v: targets answering with redirects (any graph; the client's loop ends under the default policy);
+        # Gen/RedirClient_bridge.v: every net/http Client literal of the gun packages leaves CheckRedirect to the default
+        bridge_files=["Gen/GoFnMp_bridge.v", "Gen/LockFlow_bridge.v", "Gen/BodySinks_bridge.v", "Properties/C19_wire.v",
+                      "Gen/RedirClient_bridge.v", "Properties/C19_redirect.v"],
         trusted=[
             "extraction: ExtrOcamlBasic only; OCaml driver ocaml/C19/main.ml (incl. its copy of str.ParseStringFunc for modifier text) + ocaml/common/conv.ml",
             "correspondence harness harness/cmd/hC19 (real postprocessors under recover; scripted TCP target; real config decoder, "
